@@ -58,4 +58,20 @@ META = {
         design_ref="DESIGN.md §4 C15",
         note="k <= 4 operations quick (5 thorough), limits 1-2 topics per sender, expiry 4 epochs; ticker replaced by direct writes of the epoch counter.",
     ),
+    "C07": dict(
+        text="Lemma-wise bounded model checking of the real disc.Member: what one message may change (L1), what intersectedView may return (L2), when the real Synchronize may invoke its continuation against an arbitrary environment (L3), plus bounded honest system runs over every delivery order; the composition argument is in DESIGN.md.",
+        design_ref="DESIGN.md §4 C07",
+        note="sync.Map / HMAC / ticker / context modelled in harness Go; universe of 4 ids spanning the 16-bit range; <= 2 (3 thorough) environment events per Synchronize; liveness only inside the bounded honest runs.",
+    ),
+    "C16": dict(
+        text="Bounded model checking of the real handleConn/authenticateConnection with every handshake field and its length symbolic, two registered (domain, identity) pairs, truncation and chunking; cryptography as uninterpreted recording stubs; "
+             "whenever a message is attributed the conditions of the property are asserted. One recorded known finding (ambiguous lookup key).",
+        design_ref="DESIGN.md §4 C16",
+        note="TLS/X.509/ECDSA assumed correct (stubs); fields of 1-3 bytes; native replay runs the real net.go with the same stubs substituted by a generated call rewrite.",
+    ),
+    "C17": dict(
+        text="Bounded model checking of framing (send -> readMsg round trip, length-limit refusal) and of concurrent senders with the real writer goroutines, an unreachable or breaking peer and the queue-full timeout, under all scheduler choices at blocking points.",
+        design_ref="DESIGN.md §4 C17",
+        note="No sockets: connection is a byte-stream model; payload <= 3 (8) bytes; the accepting side of the 20 MB limit is only checked for tiny frames.",
+    ),
 }
